@@ -167,6 +167,11 @@ def _enumerated(tier, base_seed):
                     out.append({"layer": 1, "cfg": cfg, "plan": {str(k): [kind, None]},
                                 "repeat": [], "sim": REF_SIM,
                                 "seed": mix(base_seed, ci * 100000 + k)})
+                    if kind == "STALE":
+                        # an older view: the three latest entries of the directory are missing
+                        out.append({"layer": 1, "cfg": cfg, "plan": {str(k): [kind, 3]},
+                                    "repeat": [], "sim": REF_SIM,
+                                    "seed": mix(base_seed, ci * 100000 + k)})
     n1 = len(out)
     # layer 2: repeated faults on one (op, path)
     for ci, cfg in enumerate(cfgs):
@@ -324,6 +329,11 @@ def _execute(cfg, plan, repeat, simcfg, seed, want_ops=False):
         iplan = {int(k): tuple(v) for k, v in plan.items()}
         rep = {(op, rel): [kind, r] for op, rel, kind, r in repeat}
         store, fs = e1.new_store(sim, root, cfg["store"], plan=iplan, repeat=rep)
+        if cfg.get("prev"):
+            dsdir = os.path.join(root, "ds")
+            names = sorted(os.listdir(dsdir), key=lambda f: (
+                f.startswith("_"), int(e1.PART_RE.match(f).group(1)) if e1.PART_RE.match(f) else 0, f))
+            store.note_preexisting([os.path.join(dsdir, f) for f in names])
         exc = None
         gdf = gen.build_frame(spec)
         try:
